@@ -22,6 +22,7 @@ from _pytask.git import is_git_installed
 from _pytask.node_protocols import PPathNode
 from _pytask.node_protocols import PTask
 from _pytask.node_protocols import PTaskWithPath
+from _pytask.nodes import DirectoryNode
 from _pytask.outcomes import ExitCode
 from _pytask.path import find_common_ancestor
 from _pytask.path import relative_to
@@ -215,6 +216,8 @@ def _yield_paths_from_task(task: PTask) -> Generator[Path, None, None]:
         for node in tree_leaves(getattr(task, attribute)):
             if isinstance(node, PPathNode):
                 yield node.path
+            elif isinstance(node, DirectoryNode):
+                yield from node.collect()
 
 
 def _find_all_unknown_paths(
